@@ -43,6 +43,21 @@ impl SubIt {
             SubIt::R(i) => i.size_hint(),
         }
     }
+    /// std adaptors on a clone: nth(1) then next(), and - for short
+    /// remainders - count() and last()
+    fn adaptors(&self, short: bool) -> [Option<usize>; 4] {
+        fn run<I: Iterator<Item = usize> + Clone>(i: &I, short: bool) -> [Option<usize>; 4] {
+            let mut a = i.clone();
+            let n1 = a.nth(1);
+            let after = a.next();
+            let (cnt, last) = if short { (Some(i.clone().count()), i.clone().last()) } else { (None, None) };
+            [n1, after, cnt, last]
+        }
+        match self {
+            SubIt::F(i) => run(i, short),
+            SubIt::R(i) => run(i, short),
+        }
+    }
     fn into_owned(self) -> SubIt {
         match self {
             SubIt::F(i) => SubIt::F(i.into_owned()),
@@ -191,6 +206,17 @@ fn state_checks_case(c: &Case, st: &St) -> Option<String> {
             if let Some(p) = it.next() {
                 return Some(format!("exhausted iterator yielded {} (extra call {})", p, i));
             }
+        }
+    }
+    if st.taken <= 1 || remaining <= 3 {
+        let short = remaining <= 3;
+        let rem = &c.reference[st.taken as usize..];
+        let exp = [rem.get(1).copied(), rem.get(2).copied(), if short { Some(rem.len()) } else { None }, if short { rem.last().copied() } else { None }];
+        let got = st.it.adaptors(short);
+        if got != exp {
+            let names = ["nth(1)", "next() after nth(1)", "count()", "last()"];
+            let i = (0..4).find(|&i| got[i] != exp[i]).unwrap();
+            return Some(format!("{} on a clone returned {:?}, reference {:?}", names[i], got[i], exp[i]));
         }
     }
     None
